@@ -1101,6 +1101,31 @@ impl<C: Caps> Seq<C> {
                     ensure!("C03", "stale-get_or_default", got.is_none(), "{:?}: get_mut_or_default through the dead {:?} handed out {:?}", kind, e, got);
                 }
             }
+            SOp::Drain(Some(3)) => {
+                // a drain consumed through an iterator adaptor: skip(1) discards the first item, which is
+                // removed from the storage all the same
+                let mut got: Vec<(u32, Ident)> = vec![];
+                {
+                    let w = self.w();
+                    let ents = w.entities();
+                    let mut st = w.write_storage::<C>();
+                    for (e, c) in (&ents, st.drain()).join().skip(1) {
+                        got.push((e.id(), c.ident()));
+                        caller_drop(c);
+                    }
+                }
+                let all = self.live_model();
+                let expect: Vec<(u32, Ident)> = all.iter().skip(1).cloned().collect();
+                ensure!(tag, "drain-items", got == expect, "{:?}: drain().join().skip(1) yielded {:?}, expected {:?}", kind, got, expect);
+                for (i, _) in &all {
+                    self.model.remove(i);
+                    ex.rem(*i);
+                    self.facts.removed_any = true;
+                    if kind.tracked() {
+                        self.facts.drain_tracked = true;
+                    }
+                }
+            }
             SOp::Drain(take) => {
                 let mut got: Vec<(u32, Ident)> = vec![];
                 {
